@@ -79,18 +79,73 @@ func lockFreeMutable(c *Ctx) map[*types.Named]string {
 	return out
 }
 
-// helperFields: for struct type E, the pointer fields whose target is lock-free mutable.
-func helperFields(e types.Type, lfm map[*types.Named]string) map[int]string {
+// mutatedThroughField: "pkg.Type.field" → the mutating method that is invoked on
+// a receiver loaded from that field somewhere in lib/query (e.g.
+// scope.Records[i].cache.Add(…)): the helper is changed through its holder.
+func mutatedThroughField(c *Ctx, lfm map[*types.Named]string) map[string]string {
+	mutators := map[*ssa.Function]bool{}
+	for _, fn := range c.P.FuncsIn(true, "lib/query") {
+		if fn.Signature.Recv() == nil || fn.Parent() != nil || len(fn.Params) == 0 {
+			continue
+		}
+		self := fn.Params[0]
+		for _, b := range fn.Blocks {
+			for _, in := range b.Instrs {
+				switch x := in.(type) {
+				case *ssa.Store:
+					if fa, ok := x.Addr.(*ssa.FieldAddr); ok && fa.X == self {
+						mutators[fn] = true
+					}
+				case *ssa.MapUpdate:
+					if u, ok := x.Map.(*ssa.UnOp); ok {
+						if fa, ok := u.X.(*ssa.FieldAddr); ok && fa.X == self {
+							mutators[fn] = true
+						}
+					}
+				}
+			}
+		}
+	}
+	out := map[string]string{}
+	for _, fn := range c.P.FuncsIn(true, "lib/query") {
+		for _, call := range core.Calls(fn) {
+			callee := call.Common().StaticCallee()
+			if callee == nil || !mutators[callee] || len(call.Common().Args) == 0 {
+				continue
+			}
+			recv := call.Common().Args[0]
+			u, ok := recv.(*ssa.UnOp)
+			if !ok || u.Op != token.MUL {
+				continue
+			}
+			if fa, ok := u.X.(*ssa.FieldAddr); ok {
+				if owner := core.FieldOwner(fa); owner != "" {
+					out[owner] = c.P.Name(callee)
+				}
+			}
+		}
+	}
+	return out
+}
+
+// helperFields: for struct type E, the pointer fields whose target is a
+// lock-free mutable type AND which are used as the receiver of a mutating
+// method somewhere (field-sensitive: a shared *View that is only read is fine).
+func helperFields(e types.Type, lfm map[*types.Named]string, mtf map[string]string) map[int]string {
 	out := map[int]string{}
 	st, ok := e.Underlying().(*types.Struct)
 	if !ok {
 		return out
 	}
+	owner := core.NamedOf(e)
 	for i := 0; i < st.NumFields(); i++ {
 		if p, ok := st.Field(i).Type().(*types.Pointer); ok {
 			if n, ok := p.Elem().(*types.Named); ok {
-				if why, ok := lfm[n]; ok {
-					out[i] = st.Field(i).Name() + " *" + n.Obj().Name() + " (" + why + ")"
+				if _, ok := lfm[n]; !ok {
+					continue
+				}
+				if m, ok := mtf[owner+"."+st.Field(i).Name()]; ok {
+					out[i] = st.Field(i).Name() + " *" + n.Obj().Name() + " (mutated without a lock through this field by " + m + ")"
 				}
 			}
 		}
@@ -101,6 +156,7 @@ func helperFields(e types.Type, lfm map[*types.Named]string) map[int]string {
 func rulePar4(c *Ctx) {
 	e := parAnalysis(c.P)
 	lfm := lockFreeMutable(c)
+	mtf := mutatedThroughField(c, lfm)
 	// scope constructors: static callees in regions that return *ReferenceScope (or, for
 	// controls, any pointer to a struct) and receive a shared value
 	ctors := map[*ssa.Function]string{}
@@ -162,7 +218,7 @@ func rulePar4(c *Ctx) {
 				if !ok {
 					continue
 				}
-				hf := helperFields(st.Val.Type(), lfm)
+				hf := helperFields(st.Val.Type(), lfm, mtf)
 				if len(hf) == 0 {
 					continue
 				}
